@@ -25,7 +25,7 @@ const (
 	shBool
 	shVersion
 	shArch
-	shArchList  // blank separated, may be folded
+	shArchList // blank separated, may be folded
 	shDep
 	shCommaList // comma separated, trimmed, may be folded
 	shSpaceList // blank separated, may be folded
